@@ -222,13 +222,13 @@ func c13Simple(r *run.Run) {
 	nameKinds := []string{"standard in order", "standard out of order", "custom", "mixed with 1-char and 127-char names"}
 	counts := []int{1, 2, 3, 229, 230, 300}
 	r.Explore(explore.Config{Name: "C13.simple"},
-		"simple CFF fonts: glyph counts {1,2,3,229,230,300} x name sets (standard strings in / out of order forcing charset formats 0/1/2 and the predefined charset, custom, 1- and 127-character names) x encodings (standard, expert-like, custom with gaps, multiply encoded glyph, full 256 codes in k ranges) x charstring payload sizes crossing the INDEX offSize boundaries",
+		"simple CFF fonts: glyph counts {1,2,3,229,230,300} x name sets (standard strings in / out of order forcing charset formats 0/1/2 and the predefined charset, custom, 1- and 127-character names) x encodings (standard, expert-like, custom with gaps, multiply encoded glyph, full 256 codes in k ranges, no code at all) x charstring payload sizes crossing the INDEX offSize boundaries",
 		func(c *explore.Ctx) {
 			n := counts[c.Choose(len(counts), "glyphs")]
 			kind := nameKinds[c.Choose(len(nameKinds), "names")]
 			names := nameSets[kind](n)
 			n = len(names)
-			encKind := c.Choose(6, "encoding")
+			encKind := c.Choose(7, "encoding")
 			payload := explore.Pick(c, "payload per glyph (segments)", 1, 20, 300)
 			f := &cff.Font{FontInfo: c13Info(), Outlines: &cff.Outlines{Private: []*type1.PrivateDict{c13Priv(0)}, FDSelect: func(glyph.ID) int { return 0 }}}
 			for i, nm := range names {
@@ -288,6 +288,8 @@ func c13Simple(r *run.Run) {
 					}
 				}
 				f.Encoding = e
+			case 6:
+				f.Encoding = make([]glyph.ID, 256) // a built-in encoding that gives no glyph a code
 			case 4:
 				e := make([]glyph.ID, 256)
 				// all 256 codes in use; the encoded glyphs are 1..k without gaps (the documented contiguity rule)
